@@ -3,7 +3,7 @@ from common import TRUSTED, ASSUME, configs
 import panics
 import dtree
 import nullrules as N
-from facts import walk, peel, src, loc, strip_generics
+from facts import walk, peel, src, loc, strip_generics, callee_is, _pat_binds
 
 AUDITED = [
     ('TimeDelta::parse', 'index str',
@@ -16,10 +16,10 @@ AUDITED = [
     ('Time::parse', 'assert Overflow(Add)',
      'nanosecond() <= 1_999_999_999 added to a value below 8.64e13'),
 ]
-UNITS = {'ns': ('nsecs', None), 'us': ('nsecs', 'NANOS_PER_MICRO'), 'ms': ('nsecs', 'NANOS_PER_MILLI'),
-         's': ('secs', None), 'm': ('secs', 'SECS_PER_MINUTE'), 'h': ('secs', 'SECS_PER_HOUR'),
-         'd': ('secs', 'SECS_PER_DAY'), 'w': ('secs', 'SECS_PER_WEEK'), 'mo': ('months', None),
-         'y': ('months', '12')}
+UNITS = {'ns': ('NANOS', None), 'us': ('NANOS', 'NANOS_PER_MICRO'), 'ms': ('NANOS', 'NANOS_PER_MILLI'),
+         's': ('SECS', None), 'm': ('SECS', 'SECS_PER_MINUTE'), 'h': ('SECS', 'SECS_PER_HOUR'),
+         'd': ('SECS', 'SECS_PER_DAY'), 'w': ('SECS', 'SECS_PER_WEEK'), 'mo': ('MONTHS', None),
+         'y': ('MONTHS', '12')}
 
 
 def check(run):
@@ -63,12 +63,53 @@ def check(run):
         'instances = (entry point, reachable panic-capable site) pairs, unit arms, format literal')
 
 
+def _acc_roles(fn):
+    """The three accumulators of the parser by what consumes them after the scan: the one
+    converted to i32 is the month total, the one fed to Duration::try_seconds the second total,
+    the one fed to Duration::nanoseconds the nanosecond total."""
+    roles = {}
+    lets = [st for blk in walk(fn.hir) if blk.get('k') == 'Block' for st in blk.get('stmts', [])
+            if st['k'] == 'Let' and 'init' in st]
+    res_role = {}
+    for st in lets:
+        calls = [x for x in walk(st['init']) if x.get('k') == 'Call' and
+                 callee_is(x, 'TryFrom::try_from') and len(x['ch']) == 2 and
+                 peel(x['ch'][1]).get('k') == 'Path' and peel(x['ch'][1]).get('res') == 'local']
+        if len(calls) != 1:
+            continue
+        arg = peel(calls[0]['ch'][1])
+        txt = src(st['init'])
+        tgt = (calls[0].get('targs') or [''])[0]
+        if 'try_seconds' in txt:
+            roles[arg['local']] = 'SECS'
+        elif 'i32' in tgt or txt.startswith('i32::try_from') or 'i32::try_from' in txt:
+            roles[arg['local']] = 'MONTHS'
+        else:
+            roles[arg['local']] = 'NANOS?'
+            for b_ in _pat_binds(st['pat']):
+                res_role[b_['local']] = arg['local']
+    # the i64 conversion that is not the second total must reach Duration::nanoseconds
+    for x in walk(fn.hir):
+        if x.get('k') == 'Call' and src(x['ch'][0]).endswith('nanoseconds') and len(x['ch']) == 2:
+            a_ = peel(x['ch'][1])
+            if a_.get('k') == 'Path' and a_.get('local') in res_role:
+                roles[res_role[a_['local']]] = 'NANOS'
+    return roles
+
+
 def unit_table(run, F):
+    from facts import _pat_binds as pb
     fn = F.one('timedelta::TimeDelta::parse')
-    m = [x for x in walk(fn.hir) if x.get('k') == 'Match' and 'unit.as_str()' in src(peel(x['ch'][0]))]
+    roles = _acc_roles(fn)
+    ok_roles = sorted(roles.values()) == ['MONTHS', 'NANOS', 'SECS']
+    run.ob('TBL.parse-units', fn, 'accumulators', ok_roles, fn.loc(),
+           'month / second / nanosecond totals identified by their consumers: %s' % sorted(roles.values()))
+    m = [x for x in walk(fn.hir) if x.get('k') == 'Match' and
+         any(dtree.pat_src(a['pat']).startswith('str:') for a in x['arms'])]
     if len(m) != 1:
         run.ob('TBL.parse-units', fn, 'unit dispatch', False, fn.loc(), '%d match(es) on the unit' % len(m))
         return
+    env = dict(roles)
     seen = {}
     for a in m[0]['arms']:
         p = dtree.pat_src(a['pat'])
@@ -76,19 +117,25 @@ def unit_table(run, F):
             continue
         u = p[4:]
         body = peel(a['body'])
-        s = src(body)
+        en = dict(env)
+        # the parsed count is the only other local read in the arm
+        for x in walk(body):
+            if x.get('k') == 'Path' and x.get('res') == 'local' and x['local'] not in roles:
+                en[x['local']] = 'n'
+        s = dtree.canon(body, en)
+        if s.endswith(';'):
+            s = s[:-1]
         seen[u] = s
         want = UNITS.get(u)
         ok = False
         if want:
             acc, k = want
-            forms = []
             if k is None:
-                forms = ['%s = %s.saturating_add(n)' % (acc, acc), '%s += n' % acc]
+                forms = ['%s = %s.saturating_add(n)' % (acc, acc), '%s AddAssign n' % acc]
             else:
-                kk = k if k.isdigit() else '(convert::%s as i128)' % k
+                kk = k if k.isdigit() else 'convert::%s' % k
                 forms = ['%s = %s.saturating_add(n.saturating_mul(%s))' % (acc, acc, kk),
-                         '%s += (n * %s)' % (acc, kk), '%s += (n * convert::%s)' % (acc, k)]
+                         '%s AddAssign (%s * n)' % (acc, kk), '%s AddAssign (n * %s)' % (acc, kk)]
             ok = s in forms
         run.ob('TBL.parse-units', fn, 'unit "%s"' % u, ok, loc(a['body']), '`%s`' % s)
     run.ob('TBL.parse-units', fn, 'unit set', set(seen) == set(UNITS), fn.loc(),
